@@ -89,6 +89,43 @@ class GridTranslator(pyrx.ClassTranslator):
             out.append(text)
         return out
 
+    # ---- asserted preconditions as a Prop -------------------------------------------
+    def prop(self, node, env):
+        if isinstance(node, ast.Compare):
+            parts = []
+            left = node.left
+            for op, right in zip(node.ops, node.comparators):
+                sym = {ast.Lt: "<", ast.Gt: ">", ast.LtE: "<=", ast.GtE: ">="}.get(type(op))
+                if sym is None:
+                    raise TranslateError("assert comparison %s" % ast.unparse(node))
+                parts.append("%s %s %s" % (self.expr(left, env), sym, self.expr(right, env)))
+                left = right
+            return " /\\ ".join(parts)
+        if isinstance(node, ast.BoolOp) and isinstance(node.op, ast.And):
+            return " /\\ ".join("(%s)" % self.prop(v, env) for v in node.values)
+        raise TranslateError("assert test %s" % ast.unparse(node)[:60])
+
+    def precondition(self, name):
+        """Prop: conjunction of the top-level assert statements of method `name`, as a
+        predicate of its parameters (asserts reading self.* are rejected)."""
+        fn = self.fn[name]
+        params = [a.arg for a in fn.args.args if a.arg != "self"]
+        env = pyrx.Env()
+        for p in params:
+            env.v[p] = p
+        props = []
+        for st in fn.body:
+            if isinstance(st, ast.Assert):
+                for n in ast.walk(st.test):
+                    if isinstance(n, ast.Attribute):
+                        raise TranslateError("assert reads %s" % ast.unparse(n))
+                props.append(self.prop(st.test, env))
+        if not props:
+            raise TranslateError("%s has no assertions" % name)
+        return "Definition %s_pre %s: Prop :=\n  %s." % (
+            self.an(name), "".join("(%s : R) " % p for p in params),
+            " /\\\n  ".join("(%s)" % p for p in props))
+
     # ---- cache-managing methods ---------------------------------------------------
     def _self_attr(self, node):
         if isinstance(node, ast.Attribute) and isinstance(node.value, ast.Name) and \
@@ -255,6 +292,7 @@ def generate(src_grid, src_g3):
     t.ret_arity = {m: 3 for m in POINT_METHODS}
     out.append(t.header(extra_vars=[("g3_unit", "unit")]))
     out.append(t.method("_updateParameters"))
+    out.append(t.precondition("_updateParameters"))
     info["g3_update_asserts"] = list(t.asserts)
     out += t.closures_of("decompactify", ["term1", "term2", "term3", "term4", "term5",
                                           "totalMapping"])
